@@ -89,6 +89,20 @@ Proof.
   intros H; inversion H as [|? ? Hn Hr]; subst. destruct (t =? c); [|auto].
   constructor; [|auto]. intros X. apply Hn. apply (to_hashes_incl c r). exact X.
 Qed.
+(* with unique send ids, an entry of the mailbox of c is a confirmed send addressed to c *)
+Lemma to_hashes_find a h l :
+  NoDup (map (fun s : hash * addr * addr => fst (fst s)) l) -> In h (to_hashes a l) -> exists f, find_csend h l = Some (f, a).
+Proof.
+  induction l as [|[[h' f'] t'] r IH]; cbn [to_hashes find_csend map fst]; [intros _ []|].
+  intros ND H. inversion ND as [|? ? Hn Hr]; subst.
+  destruct (h' =? h) eqn:E.
+  - apply Z.eqb_eq in E; subst h'. destruct (t' =? a) eqn:T.
+    + apply Z.eqb_eq in T; subst. eexists; reflexivity.
+    + exfalso. apply Hn. apply (to_hashes_incl a r). exact H.
+  - destruct (t' =? a) eqn:T.
+    + destruct H as [H|H]; [apply Z.eqb_neq in E; congruence | apply IH; assumption].
+    + apply IH; assumption.
+Qed.
 Lemma inbox_at_app c v w : inbox_at c (v ++ w) = inbox_at c v ++ inbox_at c w.
 Proof. unfold inbox_at. rewrite conf_sends_app. apply to_hashes_app. Qed.
 
@@ -163,33 +177,36 @@ Proof.
 Qed.
 
 (* ================================================================ the invariant *)
-(* the send a receive block refers to is confirmed in the given chain prefix and addressed to the receiver *)
-Definition recv_ok (view : list (list blk)) (b : blk) : Prop :=
+(* the send a receive block refers to is confirmed in the given chain prefix and addressed to the receiver, or the
+   receiver is a user account and the block acknowledges a momentum below the enforcement height E (it was verified
+   while the frontier was below E: legacy regime) *)
+Definition recv_ok (E : Z) (view : list (list blk)) (b : blk) : Prop :=
   match b_kind b with
   | BSend _ => True
-  | BRecv h => exists from, find_csend h (conf_sends view) = Some (from, b_addr b)
+  | BRecv h => exists from to, find_csend h (conf_sends view) = Some (from, to) /\
+                 (to = b_addr b \/ (is_emb (b_addr b) = false /\ 1 <= b_ma b < E))
   end.
 
-Record WFN (n : node) : Prop := mkWFN {
-  wn_chain : forall i m b, nth_error (chain n) i = Some m -> In b m -> recv_ok (firstn i (chain n)) b;
-  wn_pool : forall b, In b (pool n) -> recv_ok (chain n) b;
+Record WFN (E : Z) (n : node) : Prop := mkWFN {
+  wn_chain : forall i m b, nth_error (chain n) i = Some m -> In b m -> recv_ok E (firstn i (chain n)) b;
+  wn_pool : forall b, In b (pool n) -> recv_ok E (chain n) b;
   wn_nodup : forall a, NoDup (recvs_of a (blocks_of n));
   wn_fifo : forall c, is_emb c = true -> prefix (recvs_of c (blocks_of n)) (inbox_at c (chain n));
   wn_sends : NoDup (map (fun s : hash * addr * addr => fst (fst s)) (conf_sends (chain n)))
 }.
 
-Lemma recv_ok_app v w b : recv_ok v b -> recv_ok (v ++ w) b.
+Lemma recv_ok_app E v w b : recv_ok E v b -> recv_ok E (v ++ w) b.
 Proof.
-  unfold recv_ok. destruct (b_kind b); [auto|]. intros [f H]. exists f.
+  unfold recv_ok. destruct (b_kind b); [auto|]. intros [f [t [H X]]]. exists f, t. split; [|exact X].
   rewrite conf_sends_app. apply find_csend_app. exact H.
 Qed.
-Lemma recv_ok_firstn i c b : recv_ok (firstn i c) b -> recv_ok c b.
+Lemma recv_ok_firstn E i c b : recv_ok E (firstn i c) b -> recv_ok E c b.
 Proof. intros H. rewrite <- (firstn_skipn i c). apply recv_ok_app. exact H. Qed.
 
-Lemma inbox_nodup c n : WFN n -> NoDup (inbox_at c (chain n)).
-Proof. intros W. apply to_hashes_nodup. apply (wn_sends _ W). Qed.
+Lemma inbox_nodup E c n : WFN E n -> NoDup (inbox_at c (chain n)).
+Proof. intros W. apply to_hashes_nodup. apply (wn_sends _ _ W). Qed.
 
-Lemma WFN_genesis : WFN genesis_node.
+Lemma WFN_genesis E : WFN E genesis_node.
 Proof.
   constructor; unfold genesis_node, blocks_of; cbn [chain pool concat app].
   - intros [|[|i]] m b H; cbn in H; try discriminate. inversion H; subst. intros [].
@@ -200,7 +217,7 @@ Proof.
 Qed.
 
 (* dropping the unconfirmed tail of one account *)
-Lemma WFN_keep_first n m a : WFN n -> WFN (mkNode (chain n) (keep_first m a (pool n))).
+Lemma WFN_keep_first E n m a : WFN E n -> WFN E (mkNode (chain n) (keep_first m a (pool n))).
 Proof.
   intros W. pose proof W as W0. destruct W. constructor; unfold blocks_of in *; cbn [chain pool] in *.
   - exact wn_chain0.
@@ -222,7 +239,7 @@ Lemma recvs_of_snoc a l b :
 Proof. rewrite recvs_of_app. cbn [recvs_of]. destruct (b_kind b); [reflexivity|]. destruct (b_addr b =? a); reflexivity. Qed.
 
 (* a verified block on top of the pool *)
-Lemma WFN_add n b : WFN n -> check_blk true n b = 0 -> WFN (mkNode (chain n) (pool n ++ [b])).
+Lemma WFN_add E n b : WFN E n -> check_blk E n b = 0 -> WFN E (mkNode (chain n) (pool n ++ [b])).
 Proof.
   intros W C. pose proof W as W0. destruct W.
   unfold check_blk in C.
@@ -239,31 +256,45 @@ Proof.
   - set (a := b_addr b) in *. set (mine := recvs_of a (blocks_of n)) in *.
     unfold recv_check in C.
     destruct (find_csend h (conf_sends view)) as [[from to]|] eqn:F; [|unfold E_FROM_MISSING in C; discriminate].
-    cbn [andb] in C. destruct (to =? a) eqn:T; cbn [negb] in C; [|unfold E_MISMATCH in C; discriminate].
-    apply Z.eqb_eq in T; subst to.
-    assert (Fc : find_csend h (conf_sends (chain n)) = Some (from, a)).
+    destruct (enforced E n && negb (to =? a)) eqn:MM; [unfold E_MISMATCH in C; discriminate|].
+    assert (Fc : find_csend h (conf_sends (chain n)) = Some (from, to)).
     { rewrite <- (firstn_skipn (Z.to_nat (b_ma b)) (chain n)). rewrite conf_sends_app. apply find_csend_app. exact F. }
+    (* the addressee, or a user account verified below the enforcement height *)
+    assert (TO : to = a \/ (is_emb a = false /\ 1 <= b_ma b < E)).
+    { destruct (to =? a) eqn:T; [left; apply Z.eqb_eq; exact T|]. cbn [negb] in MM. rewrite andb_true_r in MM.
+      destruct (is_emb a) eqn:Ea.
+      - exfalso. (* a contract takes the next entry of its own mailbox, which is addressed to it *)
+        destruct (nth_error (inbox_at a view) (length mine)) as [h'|] eqn:Q; [|unfold E_SEQ_NOTHING in C; discriminate].
+        destruct (h' =? h) eqn:E1; [|unfold E_SEQ_NOT_NEXT in C; discriminate]. apply Z.eqb_eq in E1; subst h'.
+        apply nth_error_In in Q. unfold inbox_at in Q.
+        assert (NDv : NoDup (map (fun s : hash * addr * addr => fst (fst s)) (conf_sends view))).
+        { pose proof wn_sends0 as ND. rewrite <- (firstn_skipn (Z.to_nat (b_ma b)) (chain n)) in ND.
+          rewrite conf_sends_app, map_app in ND. eapply NoDup_app_l; exact ND. }
+        destruct (to_hashes_find a h _ NDv Q) as [f' F']. rewrite F in F'. inversion F'; subst.
+        rewrite Z.eqb_refl in T. discriminate.
+      - right. split; [reflexivity|]. unfold enforced in MM. apply Z.leb_gt in MM.
+        apply orb_false_iff in EM. destruct EM as [M1 M2]. apply Z.ltb_ge in M1, M2. lia. }
     assert (NEW : ~ In h mine).
     { destruct (is_emb a) eqn:Ea.
       - destruct (nth_error (inbox_at a view) (length mine)) as [h'|] eqn:Q; [|unfold E_SEQ_NOTHING in C; discriminate].
-        destruct (h' =? h) eqn:E; [|unfold E_SEQ_NOT_NEXT in C; discriminate]. apply Z.eqb_eq in E; subst h'.
+        destruct (h' =? h) eqn:E2; [|unfold E_SEQ_NOT_NEXT in C; discriminate]. apply Z.eqb_eq in E2; subst h'.
         assert (Q' : nth_error (inbox_at a (chain n)) (length mine) = Some h).
         { eapply prefix_nth; [|exact Q]. rewrite <- (firstn_skipn (Z.to_nat (b_ma b)) (chain n)).
           rewrite inbox_at_app. apply prefix_app_r. }
         assert (EQ : mine = firstn (length mine) (inbox_at a (chain n))) by (apply prefix_firstn; apply wn_fifo0; exact Ea).
-        rewrite EQ. apply NoDup_nth_not_firstn; [apply inbox_nodup; exact W0 | exact Q'].
+        rewrite EQ. apply NoDup_nth_not_firstn; [apply (inbox_nodup E); exact W0 | exact Q'].
       - destruct (mem_hash h mine) eqn:M; [unfold E_ALREADY in C; discriminate|].
         intros X. apply mem_hash_in in X. congruence. }
     constructor; cbn [chain pool]; try rewrite BL; auto.
     + intros x Hx. apply in_app_iff in Hx. destruct Hx as [Hx|[<-|[]]]; [auto|].
-      unfold recv_ok. rewrite K. exists from. exact Fc.
-    + intros x. rewrite recvs_of_snoc, K. fold a. destruct (a =? x) eqn:E.
-      * apply Z.eqb_eq in E; subst x. apply NoDup_app_snoc; [apply wn_nodup0 | exact NEW].
+      unfold recv_ok. rewrite K. exists from, to. split; [exact Fc | exact TO].
+    + intros x. rewrite recvs_of_snoc, K. fold a. destruct (a =? x) eqn:E2.
+      * apply Z.eqb_eq in E2; subst x. apply NoDup_app_snoc; [apply wn_nodup0 | exact NEW].
       * rewrite app_nil_r. apply wn_nodup0.
-    + intros c Hc. rewrite recvs_of_snoc, K. fold a. destruct (a =? c) eqn:E.
-      * apply Z.eqb_eq in E; subst c. rewrite Hc in C.
+    + intros c Hc. rewrite recvs_of_snoc, K. fold a. destruct (a =? c) eqn:E2.
+      * apply Z.eqb_eq in E2; subst c. rewrite Hc in C.
         destruct (nth_error (inbox_at a view) (length mine)) as [h'|] eqn:Q; [|unfold E_SEQ_NOTHING in C; discriminate].
-        destruct (h' =? h) eqn:E; [|unfold E_SEQ_NOT_NEXT in C; discriminate]. apply Z.eqb_eq in E; subst h'.
+        destruct (h' =? h) eqn:E3; [|unfold E_SEQ_NOT_NEXT in C; discriminate]. apply Z.eqb_eq in E3; subst h'.
         assert (Q' : nth_error (inbox_at a (chain n)) (length mine) = Some h).
         { eapply prefix_nth; [|exact Q]. rewrite <- (firstn_skipn (Z.to_nat (b_ma b)) (chain n)).
           rewrite inbox_at_app. apply prefix_app_r. }
@@ -315,10 +346,10 @@ Proof.
     + cbn in H. destruct k; discriminate.
 Qed.
 
-Lemma WFN_momentum n sel mom :
-  WFN n -> pick sel (pool n) = Some mom ->
+Lemma WFN_momentum E n sel mom :
+  WFN E n -> pick sel (pool n) = Some mom ->
   let rest := filter (fun b => negb (mem_hash (b_hash b) sel)) (pool n) in
-  momentum_ok n mom rest = true -> WFN (mkNode (chain n ++ [mom]) rest).
+  momentum_ok n mom rest = true -> WFN E (mkNode (chain n ++ [mom]) rest).
 Proof.
   intros W P rest OK. pose proof W as W0. destruct W.
   assert (Hm : forall b, In b mom -> In b (pool n)) by (eapply pick_in; eauto).
@@ -349,13 +380,13 @@ Proof.
   exists i, m, b. auto.
 Qed.
 
-Lemma WFN_truncate n c' last :
-  WFN n -> chain n = c' ++ [last] -> WFN (mkNode c' []).
+Lemma WFN_truncate E n c' last :
+  WFN E n -> chain n = c' ++ [last] -> WFN E (mkNode c' []).
 Proof.
-  intros W E. pose proof W as W0. destruct W. rewrite E in *.
+  intros W EC. pose proof W as W0. destruct W. rewrite EC in *.
   assert (PL : forall a, prefix (recvs_of a (concat c')) (recvs_of a (blocks_of n))).
-  { intros a. unfold blocks_of. rewrite E, concat_app, !recvs_of_app, <- app_assoc. apply prefix_app_r. }
-  assert (CH : forall i m b, nth_error c' i = Some m -> In b m -> recv_ok (firstn i c') b).
+  { intros a. unfold blocks_of. rewrite EC, concat_app, !recvs_of_app, <- app_assoc. apply prefix_app_r. }
+  assert (CH : forall i m b, nth_error c' i = Some m -> In b m -> recv_ok E (firstn i c') b).
   { intros i m b Hn Hb. assert (L : (i < length c')%nat) by (apply nth_error_Some; congruence).
     specialize (wn_chain0 i m b). rewrite nth_error_app1 in wn_chain0 by exact L.
     rewrite firstn_app_le in wn_chain0 by lia. auto. }
@@ -368,13 +399,13 @@ Proof.
     { rewrite <- inbox_at_app. eapply prefix_trans; [apply PL | apply wn_fifo0; exact Hc]. }
     eapply prefix_cut; [exact P1 | | rewrite <- inbox_at_app; apply to_hashes_nodup; exact wn_sends0].
     intros h Hh. destruct (recvs_in_chain _ _ _ Hh) as [i [m [b [Hn [Hb [K A]]]]]].
-    specialize (CH i m b Hn Hb). unfold recv_ok in CH. rewrite K in CH. destruct CH as [f F]. rewrite A in F.
-    apply find_csend_to in F. unfold inbox_at. rewrite <- (firstn_skipn i c'), conf_sends_app, to_hashes_app.
+    specialize (CH i m b Hn Hb). unfold recv_ok in CH. rewrite K in CH. destruct CH as [f [t [F [X|[X _]]]]]; [|congruence].
+    subst t. rewrite A in F. apply find_csend_to in F. unfold inbox_at. rewrite <- (firstn_skipn i c'), conf_sends_app, to_hashes_app.
     apply in_or_app. left. exact F.
   - rewrite conf_sends_app, map_app in wn_sends0. eapply NoDup_app_l; exact wn_sends0.
 Qed.
 
-Lemma WFN_drop_pool n : WFN n -> WFN (mkNode (chain n) []).
+Lemma WFN_drop_pool E n : WFN E n -> WFN E (mkNode (chain n) []).
 Proof.
   intros W. pose proof W as W0. destruct W.
   assert (PL : forall a, prefix (recvs_of a (concat (chain n))) (recvs_of a (blocks_of n))).
@@ -389,44 +420,55 @@ Lemma exists_last' {A} (l : list A) : l <> [] -> exists l' x, l = l' ++ [x].
 Proof. intros H. destruct (exists_last H) as [l' [x E]]. eauto. Qed.
 
 (* ================================================================ every event preserves the invariant *)
-Theorem step_node_wf n e n' c : WFN n -> step_node true n e = (n', c) -> WFN n'.
+Theorem step_node_wf E n e n' c : WFN E n -> step_node E n e = (n', c) -> WFN E n'.
 Proof.
   intros W H. destruct e; cbn [step_node] in H.
   - set (n1 := mkNode (chain n) (keep_first (Z.to_nat keep) (b_addr b) (pool n))) in *.
-    assert (W1 : WFN n1) by (apply WFN_keep_first; exact W).
-    destruct (check_blk true n1 b =? 0) eqn:C; cbn [andb] in H.
+    assert (W1 : WFN E n1) by (apply WFN_keep_first; exact W).
+    destruct (check_blk E n1 b =? 0) eqn:C; cbn [andb] in H.
     + destruct commit; inversion H; subst; [|exact W].
-      apply Z.eqb_eq in C. apply (WFN_add n1 b W1 C).
+      apply Z.eqb_eq in C. apply (WFN_add E n1 b W1 C).
     + inversion H; subst; exact W.
   - destruct (pick sel (pool n)) as [mom|] eqn:P; [|inversion H; subst; exact W].
     destruct (momentum_ok n mom _) eqn:OK; inversion H; subst; [|exact W].
     eapply WFN_momentum; eauto.
-  - destruct (chain n) as [|m0 [|m1 r]] eqn:E; try (inversion H; subst; exact W).
+  - destruct (chain n) as [|m0 [|m1 r]] eqn:EC; try (inversion H; subst; exact W).
     destruct (exists_last' (m0 :: m1 :: r)) as [c' [x Ex]]; [discriminate|].
     assert (RL : removelast (m0 :: m1 :: r) = c') by (rewrite Ex; apply removelast_snoc).
-    rewrite RL in H. injection H as <- <-. eapply WFN_truncate; [exact W | rewrite E; exact Ex].
+    rewrite RL in H. injection H as <- <-. eapply WFN_truncate; [exact W | rewrite EC; exact Ex].
   - inversion H; subst. apply WFN_drop_pool; exact W.
 Qed.
 
-Theorem run_node_wf es : forall n, WFN n -> WFN (run_node true n es).
+Theorem run_node_wf E es : forall n, WFN E n -> WFN E (run_node E n es).
 Proof.
   induction es as [|e r IH]; intros n W; cbn [run_node]; [exact W|].
-  apply IH. destruct (step_node true n e) as [n' c] eqn:E. cbn [fst]. eapply step_node_wf; eauto.
+  apply IH. destruct (step_node E n e) as [n' c] eqn:EQ. cbn [fst]. eapply step_node_wf; eauto.
 Qed.
 
 (* ================================================================ the statements *)
-Lemma all_recv_ok n b : WFN n -> In b (blocks_of n) -> recv_ok (chain n) b.
+Lemma all_recv_ok E n b : WFN E n -> In b (blocks_of n) -> recv_ok E (chain n) b.
 Proof.
-  intros W H. unfold blocks_of in H. apply in_app_iff in H. destruct H as [H|H]; [|apply (wn_pool _ W); exact H].
+  intros W H. unfold blocks_of in H. apply in_app_iff in H. destruct H as [H|H]; [|apply (wn_pool _ _ W); exact H].
   apply in_concat in H. destruct H as [m [Hm Hb]]. apply In_nth_error in Hm. destruct Hm as [i Hi].
-  eapply recv_ok_firstn. eapply (wn_chain _ W); eauto.
+  eapply recv_ok_firstn. eapply (wn_chain _ _ W); eauto.
 Qed.
 
-(* only the account the send is addressed to receives it, and the send is confirmed *)
-Theorem only_addressee n b h :
-  WFN n -> In b (blocks_of n) -> b_kind b = BRecv h ->
+(* both regimes: a receiving block refers to a confirmed send and belongs to the send's addressee, or to a user account
+   and acknowledges a momentum below the enforcement height *)
+Theorem receiver_rule E n b h :
+  WFN E n -> In b (blocks_of n) -> b_kind b = BRecv h ->
+  exists from to, find_csend h (conf_sends (chain n)) = Some (from, to) /\
+                  (to = b_addr b \/ (is_emb (b_addr b) = false /\ 1 <= b_ma b < E)).
+Proof. intros W H K. pose proof (all_recv_ok _ _ _ W H) as R. unfold recv_ok in R. rewrite K in R. exact R. Qed.
+
+(* enforced from the genesis momentum on: only the account the send is addressed to receives it, and the send is confirmed *)
+Theorem only_addressee E n b h :
+  E <= 1 -> WFN E n -> In b (blocks_of n) -> b_kind b = BRecv h ->
   exists from, find_csend h (conf_sends (chain n)) = Some (from, b_addr b).
-Proof. intros W H K. pose proof (all_recv_ok _ _ W H) as R. unfold recv_ok in R. rewrite K in R. exact R. Qed.
+Proof.
+  intros LE W H K. destruct (receiver_rule _ _ _ _ W H K) as [f [t [F [X|[_ X]]]]]; [|lia].
+  subst t. exists f. exact F.
+Qed.
 
 Lemma receivers_in h l b : In b (receivers h l) -> In b l /\ b_kind b = BRecv h.
 Proof.
@@ -452,28 +494,72 @@ Proof.
     cbn [count_occ]. destruct (Z.eq_dec fh h); [congruence | exact IH'].
 Qed.
 
-(* every send is received at most once over the whole chain + pool *)
-Theorem at_most_once n h : WFN n -> (length (receivers h (blocks_of n)) <= 1)%nat.
+(* every send is received at most once over the whole chain + pool (enforced from the genesis momentum on) *)
+Theorem at_most_once E n h : E <= 1 -> WFN E n -> (length (receivers h (blocks_of n)) <= 1)%nat.
 Proof.
-  intros W. destruct (find_csend h (conf_sends (chain n))) as [[from to]|] eqn:F.
+  intros LE W. destruct (find_csend h (conf_sends (chain n))) as [[from to]|] eqn:F.
   - rewrite (receivers_count h to).
-    + pose proof (wn_nodup _ W to) as ND. rewrite (NoDup_count_occ Z.eq_dec) in ND. apply ND.
-    + intros b Hb K. destruct (only_addressee _ _ _ W Hb K) as [f G]. congruence.
+    + pose proof (wn_nodup _ _ W to) as ND. rewrite (NoDup_count_occ Z.eq_dec) in ND. apply ND.
+    + intros b Hb K. destruct (only_addressee _ _ _ _ LE W Hb K) as [f G]. congruence.
   - destruct (receivers h (blocks_of n)) as [|b r] eqn:R; [cbn; lia|]. exfalso.
     assert (Hb : In b (receivers h (blocks_of n))) by (rewrite R; left; reflexivity).
-    apply receivers_in in Hb. destruct Hb as [Hb K]. destruct (only_addressee _ _ _ W Hb K) as [f G]. congruence.
+    apply receivers_in in Hb. destruct Hb as [Hb K]. destruct (only_addressee _ _ _ _ LE W Hb K) as [f G]. congruence.
+Qed.
+
+(* both regimes: one account never has two blocks that receive the same send (the marker is the account's own) *)
+Lemma receivers_by_count a h l : length (receivers_by a h l) = count_occ Z.eq_dec (recvs_of a l) h.
+Proof.
+  unfold receivers_by. induction l as [|x r IH]; cbn [receivers recvs_of filter]; [reflexivity|].
+  destruct (b_kind x) as [t|fh] eqn:K; [exact IH|].
+  destruct (fh =? h) eqn:E1.
+  - apply Z.eqb_eq in E1; subst fh. cbn [filter]. destruct (b_addr x =? a) eqn:A.
+    + cbn [length count_occ]. destruct (Z.eq_dec h h); [|congruence]. f_equal. exact IH.
+    + exact IH.
+  - apply Z.eqb_neq in E1. destruct (b_addr x =? a); [|exact IH].
+    cbn [count_occ]. destruct (Z.eq_dec fh h); [congruence | exact IH].
+Qed.
+Theorem once_per_account E n a h : WFN E n -> (length (receivers_by a h (blocks_of n)) <= 1)%nat.
+Proof.
+  intros W. rewrite receivers_by_count. pose proof (wn_nodup _ _ W a) as ND.
+  rewrite (NoDup_count_occ Z.eq_dec) in ND. apply ND.
+Qed.
+
+(* both regimes: among the blocks that acknowledge a momentum at or above the enforcement height at most one receives
+   a given send, and it belongs to the addressee *)
+Lemma filter_length_le {A} (p q : A -> bool) l :
+  (forall x, In x l -> p x = true -> q x = true) -> (length (filter p l) <= length (filter q l))%nat.
+Proof.
+  induction l as [|x r IH]; cbn [filter]; intros H; [lia|].
+  assert (IH' := IH (fun y Hy => H y (or_intror Hy))).
+  destruct (p x) eqn:P.
+  - rewrite (H x (or_introl eq_refl) P). cbn [length]. lia.
+  - destruct (q x); cbn [length]; lia.
+Qed.
+Theorem at_most_once_from_enforcement E n h : WFN E n -> (length (receivers_from E h (blocks_of n)) <= 1)%nat.
+Proof.
+  intros W. destruct (find_csend h (conf_sends (chain n))) as [[from to]|] eqn:F.
+  - eapply Nat.le_trans; [|apply (once_per_account E n to h W)].
+    unfold receivers_from, receivers_by. apply filter_length_le. intros b Hb P.
+    apply receivers_in in Hb. destruct Hb as [Hb K].
+    destruct (receiver_rule _ _ _ _ W Hb K) as [f [t [G [X|[_ X]]]]].
+    + rewrite F in G. inversion G; subst. apply Z.eqb_refl.
+    + apply Z.leb_le in P. lia.
+  - destruct (receivers_from E h (blocks_of n)) as [|b r] eqn:R; [cbn; lia|]. exfalso.
+    assert (Hb : In b (receivers_from E h (blocks_of n))) by (rewrite R; left; reflexivity).
+    unfold receivers_from in Hb. apply filter_In in Hb. destruct Hb as [Hb _].
+    apply receivers_in in Hb. destruct Hb as [Hb K]. destruct (receiver_rule _ _ _ _ W Hb K) as [f [t [G _]]]. congruence.
 Qed.
 
 (* contract inboxes are strict FIFO: the sequence of received sends is a duplicate-free prefix of the confirmation order *)
-Theorem fifo n c :
-  WFN n -> is_emb c = true ->
+Theorem fifo E n c :
+  WFN E n -> is_emb c = true ->
   prefix (recvs_of c (blocks_of n)) (inbox_at c (chain n)) /\ NoDup (recvs_of c (blocks_of n)).
-Proof. intros W Hc. split; [apply (wn_fifo _ W); exact Hc | apply (wn_nodup _ W)]. Qed.
+Proof. intros W Hc. split; [apply (wn_fifo _ _ W); exact Hc | apply (wn_nodup _ _ W)]. Qed.
 
 (* ================================================================ before the enforcement height *)
 Definition pre_enf_events : list event :=
   [ EBlock 0 true (mkBlk 1000 100 (BSend 101) 1 []); EMomentum [1000];
     EBlock 0 true (mkBlk 1001 102 (BRecv 1000) 2 []); EBlock 0 true (mkBlk 1002 101 (BRecv 1000) 2 []) ].
 Theorem pre_enforcement_two_receivers :
-  length (receivers 1000 (blocks_of (run_node false genesis_node pre_enf_events))) = 2%nat.
+  length (receivers 1000 (blocks_of (run_node 100 genesis_node pre_enf_events))) = 2%nat.
 Proof. vm_compute. reflexivity. Qed.
